@@ -109,11 +109,14 @@ PPL::BHRZ03_Certificate::BHRZ03_Certificate(const Polyhedron& ph)
 int
 PPL::BHRZ03_Certificate::compare(const BHRZ03_Certificate& y) const {
   PPL_ASSERT(OK() && y.OK());
+  // Note: a greater affine dimension (resp., a greater dimension of the
+  // lineality space) means a smaller certificate
+  // (see compare(const Polyhedron&)).
   if (affine_dim != y.affine_dim) {
-    return (affine_dim > y.affine_dim) ? 1 : -1;
+    return (affine_dim < y.affine_dim) ? 1 : -1;
   }
   if (lin_space_dim != y.lin_space_dim) {
-    return (lin_space_dim > y.lin_space_dim) ? 1 : -1;
+    return (lin_space_dim < y.lin_space_dim) ? 1 : -1;
   }
   if (num_constraints != y.num_constraints) {
     return (num_constraints > y.num_constraints) ? 1 : -1;
